@@ -606,6 +606,18 @@ def check_file(content, ds, pd, py_us, raw, raw_prop):
     e0 = struct.unpack("<Qq", TimeStamp(np.datetime64(pd[0], "us")).bytes)
     if not isinstance(rp2, TdmsTimestamp) or (int(rp2.second_fractions), int(rp2.seconds)) != e0:
         return ("raw property of a datetime", repr(rp2))
+    # metadata-only reads: the same raw / converted properties, and the raw dtype of the timestamp channel
+    mf = TdmsFile.read_metadata(io.BytesIO(content), raw_timestamps=True)
+    mp = mf["g"]["r"].properties.get("t_raw")
+    if not isinstance(mp, TdmsTimestamp) or (int(mp.seconds), int(mp.second_fractions)) != \
+            (raw_prop.seconds, raw_prop.second_fractions):
+        return ("raw property (metadata-only read, raw_timestamps=True)", repr(mp))
+    if mf["g"]["r"].dtype != rf["g"]["r"].dtype:
+        return ("raw channel dtype (metadata-only read)", str(mf["g"]["r"].dtype), str(rf["g"]["r"].dtype))
+    mc = TdmsFile.read_metadata(io.BytesIO(content))
+    v = mc["g"]["c"].properties.get("t_chan")
+    if not isinstance(v, np.datetime64) or int(v.astype("int64")) != pd[1]:
+        return ("property datetime (metadata-only read)", dt_str(pd[1]), str(v))
     return None
 
 
